@@ -183,6 +183,21 @@ impl V3 {
 }
 
 /// Angular distance between two unit vectors, accurate at all separations.
+/// Signed distance (rad, to first order) of `p` from the great circle through `a` and `b`, positive
+/// on the left of a -> b seen from outside the sphere: `a . ((b - a) x (p - a)) / |b - a|`.
+/// Differences are taken first, so that for points a, b, p within 1e-9 rad of each other the
+/// result keeps a relative accuracy of ~1e-16 / |b - a| x |..| instead of the absolute error
+/// 1e-16 / |b - a| of `p . normalized(a x b)`.
+pub fn plane_side(a: &V3, b: &V3, p: &V3) -> f64 {
+  let e = V3 { x: b.x - a.x, y: b.y - a.y, z: b.z - a.z };
+  let q = V3 { x: p.x - a.x, y: p.y - a.y, z: p.z - a.z };
+  let len = e.norm();
+  if len == 0.0 {
+    return 0.0;
+  }
+  a.dot(&e.cross(&q)) / len
+}
+
 pub fn ang_dist_v(a: &V3, b: &V3) -> f64 {
   a.cross(b).norm().atan2(a.dot(b))
 }
